@@ -4,9 +4,11 @@ open Io
 let p = Extracted.addsub
 let init () =
   let open Registry in
-  reg_m "c15.preserve" (fun _ -> ok (res_bool true));
-  reg_m "c15.ascii" (fun _ -> ok (res_bool true));
-  reg_m "c15.gen_biguint" (fun _ -> ok (res_bool true));
+  (* the expected observation is the property itself (C15_to_str_ascii, C15_rand_u32_view, borrowed
+     operands are values): model and spec lines are both the constant `true` *)
+  reg_ms "c15.preserve" (fun _ -> ok (res_bool true)) (fun _ -> ok (res_bool true));
+  reg_ms "c15.ascii" (fun _ -> ok (res_bool true)) (fun _ -> ok (res_bool true));
+  reg_ms "c15.gen_biguint" (fun _ -> ok (res_bool true)) (fun _ -> ok (res_bool true));
   reg_m "c15.exact_add"
     (function [a; b] -> out (fun (r, c) -> ok2 (res_d r) (res_n c)) (AddSub.add2c p (arg_d a) (arg_d b)) | _ -> failwith "arity");
   reg_m "c15.exact_sub"
